@@ -3,6 +3,7 @@
 -/
 import UpdaterModel.Lemmas.Events
 import UpdaterModel.Props.C08
+import UpdaterModel.Gen.Consts
 
 namespace Updater
 
@@ -268,5 +269,10 @@ theorem C17_holds (env : Env) (libs : List (String × Bytes)) (ops : List Op) :
           simp [firstFail, hi, hdl, ho, ho', netEvents, mkEvent_withChannel, eventOk_mk]
         · cases hdl : (updateCore env c (w.base c) (normDisk w.disk c.version) sc).2.2.2 <;>
             cases ho : sc.resp.bind (·.patch) <;> simp [firstFail, hi, netEvents]
+
+/-! ### "at most three": the batch size is the one in the sources (regenerated from /repo on every run) -/
+
+theorem event_batch_agrees (cfg : Config) (d : Disk) :
+    (secCopyEvents cfg d).2 = (loadOrNew d cfg.version).copyEvents Gen.eventBatch := rfl
 
 end Updater
